@@ -114,9 +114,18 @@ def _session(rng, prog, per, ending, force_one_line=False):
                 if e:
                     ev.append(('err', e))
                 want.append(ev)
+            # front-end words directly after one another (help / blank / clear with no code line in between)
+            for _ in range(rng.choice([0, 0, 1, 1, 2])):
+                script.append(rng.choice(['help', 'help', '', '  ']))
+                want.append([])
+                stats['special_lines_back_to_back'] = stats.get('special_lines_back_to_back', 0) + 1
             script.append(rng.choice(['clear', ' clear ', 'clear']))
             want.append([])
             stats['clear'] = 1
+            for _ in range(rng.choice([0, 0, 0, 1, 2])):
+                script.append(rng.choice(['help', '', 'clear']))
+                want.append([])
+                stats['special_lines_back_to_back'] = stats.get('special_lines_back_to_back', 0) + 1
             if jm.latest is not None:
                 stats['clear_after_a_jump'] = 1
     line, lo, le = [], [], []
@@ -164,13 +173,21 @@ def _session(rng, prog, per, ending, force_one_line=False):
                 rc = ending[1]
                 break
             if rng.random() < 0.2:
-                script.append(rng.choice(['', '   ', 'help', 'help', '\t']))
-                want.append([])
-                stats['blank_or_help'] += 1
+                for _ in range(rng.choice([1, 1, 1, 2, 3])):
+                    script.append(rng.choice(['', '   ', 'help', 'help', '\t']))
+                    want.append([])
+                    stats['blank_or_help'] += 1
         k += 1
     if not ended and rng.random() < 0.2:
+        if rng.random() < 0.4:
+            script.append(rng.choice(['help', '']))
+            want.append([])
         script.append('exit')
         want.append([])
+        if rng.random() < 0.5:
+            # nothing after `exit` may run
+            script.append(render_cmd((0, 1, 65, None)) + ' ' + render_cmd((1, 1, 1, None)))
+            want.append(None)
     return script, want, rc, stats
 
 
